@@ -26,6 +26,10 @@ Static clauses decided (necessary conditions of C10, not the behaviour itself):
     `adapter(avdict)`) is dominated by prepare_connection_for_query_execution().  A new object gets its auto-generated
     primary key during the flush; converted earlier it is sent as NULL and the query misses the rows that reference it.
 """
+# an in-place change of a Json / array value reaches queries only through the tracking chain of C28 (wrapper -> _changed_ -> _attr_changed_ -> modified flag ->
+# auto-flush): its clauses are necessary conditions of C10 as well (a tracked value attributed to the wrong object is flushed for the wrong row)
+INCLUDES = ('C28',)
+
 NOT_DECIDED = "agreement of cache-first lookups (get/exists/select by kwargs) with SQL semantics; values of counts"
 
 PREP = 'prepare_connection_for_query_execution'
